@@ -111,8 +111,7 @@ def refine(job, fp, out, err):
         return 'delegated:C13:' + fp
     if u == 'vpsc.solver' and fp.startswith('leak:blocks.cpp:vpsc::Blocks::') and job.opts.get('solver') == 'Solver' and 'throw_unsatisfied' in out:
         return 'leak:solve_VPSC.cpp:vpsc::Solver::satisfy:order_list_after_unsatisfied_throw'
-    if u == 'cola.cc' and fp == 'leak:gradient_projection.cpp:cola::GradientProjection::destroyVPSC' and 'Majorization' in str(mode) \
-            and re.search(r' U[XY] [1-9]', out):
+    if u == 'cola.cc' and fp == 'leak:gradient_projection.cpp:cola::GradientProjection::destroyVPSC' and 'Majorization' in str(mode):
         return fp + ':unsatisfiable_infos_of_earlier_iterations'
     return fp
 
@@ -413,18 +412,18 @@ def unit_dialect_sep(rng, n):
 
 
 UNITS = collections.OrderedDict([
-    ('vpsc.rect', (unit_rect, 40, 400)),
-    ('vpsc.solver', (unit_vpsc, 48, 600)),
-    ('avoid.vpsc', (unit_vpsc_avoid, 24, 300)),
-    ('cola.cc', (unit_cola_cc, 64, 800)),
-    ('cola.nonoverlap', (unit_cola_nonoverlap, 48, 600)),
-    ('cola.paths', (unit_cola_paths, 40, 400)),
-    ('topology', (unit_topology, 32, 300)),
-    ('dialect.sep', (unit_dialect_sep, 24, 200)),
-    ('dialect.peel', (unit_dialect_peel, 30, 400)),
-    ('dialect.tree', (unit_dialect_tree, 30, 300)),
-    ('dialect.plan', (unit_dialect_plan, 12, 60)),
-    ('dialect.hola', (unit_dialect_hola, 24, 300)),
+    ('vpsc.rect', (unit_rect, 120, 600)),
+    ('vpsc.solver', (unit_vpsc, 160, 1200)),
+    ('avoid.vpsc', (unit_vpsc_avoid, 64, 400)),
+    ('cola.cc', (unit_cola_cc, 200, 1600)),
+    ('cola.nonoverlap', (unit_cola_nonoverlap, 150, 1200)),
+    ('cola.paths', (unit_cola_paths, 100, 600)),
+    ('topology', (unit_topology, 96, 600)),
+    ('dialect.sep', (unit_dialect_sep, 60, 300)),
+    ('dialect.peel', (unit_dialect_peel, 100, 600)),
+    ('dialect.tree', (unit_dialect_tree, 100, 400)),
+    ('dialect.plan', (unit_dialect_plan, 30, 90)),
+    ('dialect.hola', (unit_dialect_hola, 72, 600)),
 ])
 
 
